@@ -60,7 +60,8 @@ def rand_templates(rng):
     elif r < 0.42:
         ts = {"props": "empty", "extra": [], "charts": rng.choice([0, 1])}
     if rng.random() < 0.3:
-        tc = {"extra": [["CHARTNAME", "t"], ["CREDIT", "c"]][: rng.randrange(0, 3)], "empty": rng.random() < 0.2}
+        pool = [["CHARTNAME", "t"], ["CREDIT", "c"], ["DISPLAYBPM", "90.000:180.000"], ["ATTACKS", "TIME=1.5:LEN=2:MODS=drunk"], ["DISPLAYBPM", "*"]]
+        tc = {"extra": rng.sample(pool, rng.randrange(0, 4)), "empty": rng.random() < 0.2}
     return ts, tc
 
 
@@ -103,6 +104,8 @@ def build(c):
         tc = SSCChart() if c["tc"]["empty"] else SSCChart.blank()
         for kk, vv in c["tc"]["extra"]:
             tc[kk] = vv
+        if "NOTES" in tc:
+            tc.move_to_end("NOTES")            # the domain: template charts end with their note data
     return sm, ts, tc
 
 
